@@ -17,3 +17,11 @@ THEOREMS = {
 MODULES = {"C03": ["QuillModel.Props.C03Delivery"], "C10": ["QuillModel.Props.C10Replay"]} if _HAVE_A else {}
 OBLIG = ["QuillModel.Obligations.BackendW_C10"] if _HAVE_A else []
 OBLIG_BY_PROP = {"C10": ["QuillModel.Obligations.BackendW_C10"]} if _HAVE_A else {}
+# lift round (w2_lifts): the whole-log bound of Props/C10Replay.lean closed (Props/C10ReplayWhole.lean, helpers
+# Backend/LiftRing{Pot,Pop,Top}.lean: new bundle-A Closed instance InvR — log writes + ring potential <= pops)
+if _HAVE_A:
+    THEOREMS["C10"] += ["Backend.C10_ring_potential", "Backend.C10_log_at_most_once_any_level",
+                        "Backend.C10_backtrace_at_most_once_per_flush", "Backend.C10_nothing_handed_before_pop",
+                        "Backend.C10_backtrace_once_or_never", "Backend.c10ReplayInit_start",
+                        "Backend.C10_whole_bound_false_pinned", "Backend.PA.InvR.closed"]
+    MODULES["C10"] += ["QuillModel.Props.C10ReplayWhole"]
